@@ -12,7 +12,7 @@ use std::io::Write as _;
 use tiny_http_rt::{Response, Server};
 
 fn gen_burst(rng: &mut Rng) -> Scenario {
-    let nb = rng.range(5, 9);
+    let nb = *rng.pick(&[5usize, 6, 7, 8, 9, 12, 14]);
     let late = rng.range(1, 3);
     let mut prods = vec![];
     let mut next = 1u64;
@@ -68,6 +68,17 @@ fn gen_burst(rng: &mut Rng) -> Scenario {
         prods.push(ops);
     }
     let total = (next - 1) as usize;
+    if rng.chance(1, 6) {
+        // an application that is busy for a while and then only polls: more requests are pending at
+        // once than any small fixed number, and nothing but `try_recv` / `recv_timeout` takes them
+        let mut ops = vec![COp::Sleep(500_000)];
+        let poll = if rng.chance(1, 2) { COp::Try } else { COp::Timeout(1_000) };
+        for _ in 0..total + 6 {
+            ops.push(poll.clone());
+            ops.push(COp::Sleep(*rng.pick(&[100u64, 1_000])));
+        }
+        return Scenario { prods, cons: vec![ops] };
+    }
     let nc = rng.range(1, 3);
     let mut cons = vec![];
     for _ in 0..nc {
